@@ -311,11 +311,33 @@ class Inliner:
         self.renamed: Dict[str, str] = {}
         if baseline is not None:
             self.renamed = detect_renames(self.funcs, baseline)
+            if self.renamed:
+                self._apply_renames(tree)
+                self.funcs = {}
+                self._collect(tree.body, None)
+                self.renamed_applied, self.renamed = self.renamed, {}
             for q, inf in self.funcs.items():
                 if q in self.renamed:
                     continue  # a renamed baseline function is an anchor, not an extracted helper
                 if q not in baseline and q.split(".")[-1].startswith("_") and not q.split(".")[-1].startswith("__"):
                     self.unknown[q] = inf
+
+    def _apply_renames(self, tree: ast.Module) -> None:
+        """A baseline function that was merely renamed gets its baseline name back (definition and every
+        reference in this module), so rules that anchor on names keep addressing it."""
+        fmap = {n: o for n, o in self.renamed.items() if "." not in n}
+        mmap = {n.rsplit(".", 1)[1]: o.rsplit(".", 1)[1] for n, o in self.renamed.items() if "." in n}
+        taken = {x.id for x in ast.walk(tree) if isinstance(x, ast.Name)} | {x.attr for x in ast.walk(tree) if isinstance(x, ast.Attribute)}
+        fmap = {n: o for n, o in fmap.items() if o not in taken}
+        mmap = {n: o for n, o in mmap.items() if o not in taken}
+        self.renamed = {n: o for n, o in self.renamed.items() if (n in fmap) or ("." in n and n.rsplit(".", 1)[1] in mmap)}
+        for x in ast.walk(tree):
+            if isinstance(x, ast.Name) and x.id in fmap:
+                x.id = fmap[x.id]
+            elif isinstance(x, ast.Attribute) and x.attr in mmap:
+                x.attr = mmap[x.attr]
+        for q, o in self.renamed.items():
+            self.funcs[q].node.name = o.rsplit(".", 1)[-1]
 
     def _collect(self, body, cls):
         for n in body:
@@ -601,12 +623,178 @@ class Inliner:
                 ast.copy_location(s2.test, s.test)
                 ast.fix_missing_locations(s2)
                 return rep + [s2]
+        # a helper call as one operand of the and/or chain tested by an if:
+        #     if A and helper(x) and B: BODY            _sv_cond = False
+        #                                        ->     if A:
+        #                                                   <_sv_cond = helper(x), inlined>
+        #                                                   if _sv_cond:
+        #                                                       if not B: _sv_cond = False
+        #                                               if _sv_cond: BODY
+        if isinstance(s, ast.If) and isinstance(s.test, ast.BoolOp):
+            vals = s.test.values
+            is_and = isinstance(s.test.op, ast.And)
+            pos = None
+            for i, v in enumerate(vals):
+                inner, neg = v, False
+                if isinstance(inner, ast.UnaryOp) and isinstance(inner.op, ast.Not):
+                    inner, neg = inner.operand, True
+                if isinstance(inner, ast.Call) and self._target(inner, cls) is not None:
+                    pos = (i, inner, neg)
+                    break
+            if pos is not None:
+                i, call, neg = pos
+                tmpname = "_sv_cond"
+                st = lambda: ast.Name(id=tmpname, ctx=ast.Store())  # noqa: E731
+                ld = lambda: ast.Name(id=tmpname, ctx=ast.Load())  # noqa: E731
+                rep = self._expand_call(call, cls, caller_q, assign_to([st()]))
+                if rep is None:
+                    return None
+                if neg:
+                    rep = rep + [ast.Assign(targets=[st()], value=ast.UnaryOp(op=ast.Not(), operand=ld()), type_comment=None)]
+
+                def chain(parts):
+                    if len(parts) == 1:
+                        return parts[0]
+                    return ast.BoolOp(op=ast.And() if is_and else ast.Or(), values=list(parts))
+
+                def neg_(e):
+                    return ast.UnaryOp(op=ast.Not(), operand=e)
+
+                inner_stmts: List[ast.stmt] = list(rep)
+                after = vals[i + 1:]
+                if after:
+                    rest = chain(after)
+                    if is_and:
+                        # if _sv_cond: if not rest: _sv_cond = False
+                        fix = ast.If(test=neg_(rest), body=[ast.Assign(targets=[st()], value=ast.Constant(value=False), type_comment=None)], orelse=[])
+                        inner_stmts.append(ast.If(test=ld(), body=[fix], orelse=[]))
+                    else:
+                        fix = ast.If(test=rest, body=[ast.Assign(targets=[st()], value=ast.Constant(value=True), type_comment=None)], orelse=[])
+                        inner_stmts.append(ast.If(test=neg_(ld()), body=[fix], orelse=[]))
+                before = vals[:i]
+                out: List[ast.stmt] = []
+                if before:
+                    out.append(ast.Assign(targets=[st()], value=ast.Constant(value=not is_and), type_comment=None))
+                    pre_t = chain(before)
+                    out.append(ast.If(test=pre_t if is_and else neg_(pre_t), body=inner_stmts, orelse=[]))
+                else:
+                    out += inner_stmts
+                s2 = copy.copy(s)
+                s2.test = ld()
+                out.append(s2)
+                for x in out:
+                    ast.copy_location(x, s)
+                    ast.fix_missing_locations(x)
+                return out
         # a helper call as the iterable of a for loop / inside yield from: left alone
         return None
+
+    # -- partial(helper, ...) / lambda: helper(...)  ->  nested def calling the helper ------------
+    def _is_partial(self, c: ast.AST) -> bool:
+        return isinstance(c, ast.Call) and ((isinstance(c.func, ast.Name) and c.func.id == "partial") or (isinstance(c.func, ast.Attribute) and c.func.attr == "partial" and isinstance(c.func.value, ast.Name) and c.func.value.id == "functools"))
+
+    def _closure_for_partial(self, c: ast.Call, cls, name: str) -> Optional[ast.FunctionDef]:
+        if not c.args or any(isinstance(a, ast.Starred) for a in c.args) or any(k.arg is None for k in c.keywords):
+            return None
+        probe = ast.Call(func=c.args[0], args=[], keywords=[])
+        t = self._target(probe, cls)
+        if t is None:
+            return None
+        _q, inf, is_m = t
+        a = inf.node.args
+        if a.vararg or a.kwarg or a.posonlyargs:
+            return None
+        pos = list(a.args)
+        defaults = [None] * (len(pos) - len(a.defaults)) + list(a.defaults)
+        if is_m or (inf.cls is not None and pos and pos[0].arg in ("self", "cls")):
+            pos, defaults = pos[1:], defaults[1:]
+        nb = len(c.args) - 1
+        if nb > len(pos):
+            return None
+        kwbound = {k.arg for k in c.keywords}
+        rest = [(p, d) for p, d in zip(pos[nb:], defaults[nb:]) if p.arg not in kwbound]
+        kwo = [(p, d) for p, d in zip(a.kwonlyargs, a.kw_defaults) if p.arg not in kwbound]
+        call = ast.Call(
+            func=copy.deepcopy(c.args[0]),
+            args=[copy.deepcopy(x) for x in c.args[1:]] + [ast.Name(id=p.arg, ctx=ast.Load()) for p, _d in rest],
+            keywords=[copy.deepcopy(k) for k in c.keywords] + [ast.keyword(arg=p.arg, value=ast.Name(id=p.arg, ctx=ast.Load())) for p, _d in kwo],
+        )
+        nd = [d for _p, d in rest if d is not None]
+        fd = ast.FunctionDef(
+            name=name,
+            args=ast.arguments(posonlyargs=[], args=[ast.arg(arg=p.arg) for p, _d in rest], vararg=None, kwonlyargs=[ast.arg(arg=p.arg) for p, _d in kwo],
+                               kw_defaults=[copy.deepcopy(d) if d is not None else None for _p, d in kwo], kwarg=None, defaults=[copy.deepcopy(d) for d in nd]),
+            body=[ast.Return(value=call)], decorator_list=[], returns=None, type_comment=None, type_params=[])
+        ast.copy_location(fd, c)
+        ast.fix_missing_locations(fd)
+        return fd
+
+    def _closure_convert(self, stmts: List[ast.stmt], cls) -> List[ast.stmt]:
+        outer = self
+        out: List[ast.stmt] = []
+        for s in stmts:
+            if isinstance(s, (ast.FunctionDef, ast.AsyncFunctionDef, ast.ClassDef)):
+                out.append(s)
+                continue
+            for fld in ("body", "orelse", "finalbody"):
+                sub = getattr(s, fld, None)
+                if isinstance(sub, list) and sub and isinstance(sub[0], ast.stmt):
+                    setattr(s, fld, self._closure_convert(sub, cls))
+            if isinstance(s, ast.Try):
+                for h in s.handlers:
+                    h.body = self._closure_convert(h.body, cls)
+            new_defs: List[ast.FunctionDef] = []
+
+            class T(ast.NodeTransformer):
+                def generic_visit(self, node):
+                    for field, old in ast.iter_fields(node):
+                        if isinstance(old, list):
+                            if old and isinstance(old[0], ast.stmt):
+                                continue
+                            old[:] = [self.visit(v) if isinstance(v, ast.AST) else v for v in old]
+                        elif isinstance(old, ast.AST):
+                            setattr(node, field, self.visit(old))
+                    return node
+
+                def visit_Call(self, c):
+                    self.generic_visit(c)
+                    if outer._is_partial(c):
+                        outer._n_closures += 1
+                        fd = outer._closure_for_partial(c, cls, f"_sv_partial{outer._n_closures}")
+                        if fd is not None:
+                            new_defs.append(fd)
+                            return ast.copy_location(ast.Name(id=fd.name, ctx=ast.Load()), c)
+                    return c
+
+                def visit_Lambda(self, lam):
+                    has_helper = any(isinstance(x, ast.Call) and outer._target(x, cls) is not None for x in ast.walk(lam.body))
+                    if not has_helper:
+                        return lam
+                    outer._n_closures += 1
+                    fd = ast.FunctionDef(name=f"_sv_lambda{outer._n_closures}", args=copy.deepcopy(lam.args), body=[ast.Return(value=lam.body)], decorator_list=[], returns=None, type_comment=None, type_params=[])
+                    ast.copy_location(fd, lam)
+                    ast.fix_missing_locations(fd)
+                    new_defs.append(fd)
+                    return ast.copy_location(ast.Name(id=fd.name, ctx=ast.Load()), lam)
+
+            T().generic_visit(s)
+            # `name = partial(...)` becomes `def name(...)`
+            if len(new_defs) == 1 and isinstance(s, ast.Assign) and len(s.targets) == 1 and isinstance(s.targets[0], ast.Name) and isinstance(s.value, ast.Name) and s.value.id == new_defs[0].name:
+                new_defs[0].name = s.targets[0].id
+                out.append(new_defs[0])
+                self.done.append(f"partial/lambda -> def {new_defs[0].name}")
+                continue
+            for fd in new_defs:
+                self.done.append(f"partial/lambda -> def {fd.name}")
+            out += new_defs + [s]
+        return out
 
     def run(self, max_rounds: int = 3) -> List[str]:
         if not self.unknown:
             return []
+        self._n_closures = 0
+        for q, inf in list(self.funcs.items()):
+            inf.node.body = self._closure_convert(inf.node.body, inf.cls)
         for _ in range(max_rounds):
             before = len(self.done)
             for q, inf in list(self.funcs.items()):
@@ -663,3 +851,38 @@ def inline_unknown_helpers(tree: ast.Module, modname: str, baseline_all) -> Tupl
         return [], {}  # a new module: nothing is anchored in it
     inl = Inliner(tree, modname, base)
     return inl.run(), inl.renamed
+
+
+def clean_copy(node):
+    """Copy of an AST without the analyser's annotations (_parent pointers, cached CFGs/scopes)."""
+    if isinstance(node, list):
+        return [clean_copy(x) for x in node]
+    if not isinstance(node, ast.AST):
+        return node
+    new = type(node)()
+    for f in node._fields:
+        if hasattr(node, f):
+            setattr(new, f, clean_copy(getattr(node, f)))
+    for a in ("lineno", "col_offset", "end_lineno", "end_col_offset"):
+        if hasattr(node, a):
+            setattr(new, a, getattr(node, a))
+    return new
+
+
+def inline_closures(fn_node: ast.FunctionDef) -> Tuple[ast.FunctionDef, List[str]]:
+    """A copy of fn_node in which nested closures that are only ever *called* (never passed around as
+    values) are inlined at their call sites.  Gives rules one canonical shape whether a step is written
+    in place, as a closure, or (after inline_unknown_helpers) as an extracted module-level helper."""
+    node = clean_copy(fn_node)
+    tree = ast.Module(body=[node], type_ignores=[])
+    inl = Inliner(tree, "<view>", None)
+    kids = {x.name: x for x in _walk_own(node) if isinstance(x, ast.FunctionDef)}
+    call_funcs = {id(c.func) for c in ast.walk(node) if isinstance(c, ast.Call)}
+    value_uses = {x.id for x in ast.walk(node) if isinstance(x, ast.Name) and isinstance(x.ctx, ast.Load) and id(x) not in call_funcs}
+    for name, k in kids.items():
+        if name not in value_uses:
+            inl.unknown[name] = _Info(k, None)
+    inl.funcs = {node.name: _Info(node, None)}
+    done = inl.run()
+    ast.fix_missing_locations(node)
+    return node, done
